@@ -124,8 +124,15 @@ fn copy_worker(work: cbc::Receiver<Operation>, config: &Arc<Config>, updates: Ar
 
             Operation::Special(from, to) => {
                 info!("Worker[{:?}]: Special file {:?} -> {:?}", thread::current().id(), from, to);
-                if to.exists() {
-                    if is_same_file(&from, &to)? {
+                // Anything at the destination name is replaced, also a
+                // symlink that points nowhere.
+                let exists = match to.symlink_metadata() {
+                    Ok(_) => true,
+                    Err(e) if e.kind() == std::io::ErrorKind::NotFound => false,
+                    Err(e) => return Err(e.into()),
+                };
+                if exists {
+                    if to.exists() && is_same_file(&from, &to)? {
                         return Err(XcpError::InvalidDestination("Source and destination are the same file.").into());
                     }
                     if config.no_clobber {
